@@ -142,6 +142,7 @@ class SpecOpts(object):
         # honoured only when the reference is the type of a SEQUENCE/SET/CHOICE member
         self.size_on_elem_ref = False
         self.base_opts = {}          # overrides for gen_asn1.Opts
+        self.reuse_member_names = True
         self.__dict__.update(kw)
 
 
@@ -215,6 +216,15 @@ def gen_spec(rng, so=None):
                             s[b] = ('ref', vn)
         for _, t in types:
             walk(t, vr)
+
+    # the same member names in several constructed types (the compiled-type cache is keyed by member name)
+    if so.reuse_member_names:
+        def rn(x):
+            if x['k'] in ('SEQUENCE', 'SET', 'CHOICE') and rng.random() < .4:
+                for i, m in enumerate(members_of(x)):
+                    m['name'] = 'abcdefghijklmnop'[i % 16] + ('' if i < 16 else str(i))
+        for _, t in types:
+            walk(t, rn)
 
     # explicit tags
     mk_tags(rng, spec, so)
